@@ -118,7 +118,30 @@ def run(ctx):
             nloops += 1
             empty = ("a", "%s.empty()" % needle)
             st = before.get((bid, i)) or frozenset()
-            # (a) dominated by a rejection
+            # (a) dominated by a rejection - which holds for the loop only if nothing in the loop can change the needle: a needle taken by
+            # (const) reference may BE the string the loop modifies through another reference parameter of the same type
+            # (`replace_all(s, s, "")`): what was tested in front of the loop is then no longer true after the first modification
+            body0 = [b for h, b in loops if bid in b][0]
+            base_t = lambda t: (t or "").replace("const ", "").replace("&", "").strip()
+            np0 = [p0 for p0 in f.params if p0["name"] == needle and (p0.get("type") or "").rstrip().endswith("&")]
+            aliased = None
+            if np0:
+                others = {p0["name"] for p0 in f.params if p0["name"] != needle and base_t(p0.get("type")) == base_t(np0[0].get("type"))
+                          and (p0.get("type") or "").rstrip().endswith("&") and not (p0.get("type") or "").startswith("const ")}
+                for b0 in body0:
+                    for el0 in f.elems(b0):
+                        if el0.get("expr") is None:
+                            continue
+                        for eff, lv, n0 in tree_effects(el0["expr"]):
+                            if eff in ("write", "maybe_write") and lv is not None:
+                                kind0, key0, _ = lvalue_root(lv)
+                                if kind0.split(":")[-1] == "param" and key0 in others and not (isinstance(n0, dict) and n0.get("k") == "call" and short(n0.get("name") or "") in ("find", "begin", "end", "size", "length")):
+                                    aliased = (key0, n0)
+            if logic.entails(st, Not(empty), lg.axioms)[0] is True and aliased is not None:
+                ctx.bad("R17.1", f, "empty-needle-rejected", "find(%s, %s) runs in a loop that is entered only with a non-empty %s - but the loop changes `%s` (`%s`), a reference parameter of the same type: "
+                        "when both name one string (`replace_all(s, s, \"\")`) the first modification empties the needle, find(\"\", p) then succeeds forever and the call never returns"
+                        % (needle, pos, needle, aliased[0], fmt(aliased[1])[:50]), (f, n.get("ln")))
+                continue
             if logic.entails(st, Not(empty), lg.axioms)[0] is True:
                 ctx.ok("R17.1", f, "empty-needle-rejected", "find(%s, %s) only runs with a non-empty needle" % (needle, pos), (f, n.get("ln")))
                 continue
